@@ -45,7 +45,9 @@ class RefDrive402:
         self.supported = 0x3EF
         self.rpdo_cob = 0x200 + node_id
         self.tpdo_cob = 0x180 + node_id
-        self.map_mode = False               # 0x6060 in the RPDO, 0x6061 in the TPDO
+        self.rpdo2_cob = 0x300 + node_id
+        self.tpdo2_cob = 0x280 + node_id
+        self.map_mode = 0                   # 1: 0x6060 in the RPDO and 0x6061 in the TPDO; 2: in a second RPDO / TPDO of their own
         self.period = 10 * MS
         self.tpdo_sent = 0
         self.gen = 0
@@ -82,15 +84,20 @@ class RefDrive402:
 
     def send_tpdo(self):
         data = self.statusword().to_bytes(2, "little")
-        if self.map_mode:
+        if self.map_mode == 1:
             data += (self.mode_display & 0xFF).to_bytes(1, "little")
         self.tpdo_sent += 1
         self.ep.send(self.tpdo_cob, data)
+
+    def send_tpdo2(self):
+        self.ep.send(self.tpdo2_cob, (self.mode_display & 0xFF).to_bytes(1, "little"))
 
     def start_periodic(self):
         def tick():
             if self.transport == "pdo-periodic" and not self.stopped:
                 self.send_tpdo()
+                if self.map_mode == 2:
+                    self.send_tpdo2()
                 self.ctx.after(self.period, tick)
         self.stopped = False
         self.ctx.after(self.period, tick)
@@ -152,9 +159,17 @@ class RefDrive402:
 
         def show():
             self.mode_display = code
-            if self.transport == "pdo-event" and self.map_mode:
+            if self.transport == "pdo-event" and self.map_mode == 1:
                 self.send_tpdo()
+            elif self.transport == "pdo-event" and self.map_mode == 2:
+                self.send_tpdo2()
         self.ctx.after(self.mode_delay, show)
+
+    def _mode_by_pdo(self, code):
+        if code != self.mode:
+            self.set_mode(code, "pdo")
+        else:
+            self.mode_writes.append((code, "pdo"))
 
     # ---- SDO / PDO access ------------------------------------------------
     def _read(self, index, sub):
@@ -193,9 +208,8 @@ class RefDrive402:
         elif can_id == self.rpdo_cob and self.transport != "sdo":
             if len(data) >= 2:
                 self.command(int.from_bytes(data[0:2], "little"), "pdo")
-            if self.map_mode and len(data) >= 3:
-                code = int.from_bytes(data[2:3], "little", signed=True)
-                if code != self.mode:
-                    self.set_mode(code, "pdo")
-                else:
-                    self.mode_writes.append((code, "pdo"))
+            if self.map_mode == 1 and len(data) >= 3:
+                self._mode_by_pdo(int.from_bytes(data[2:3], "little", signed=True))
+        elif can_id == self.rpdo2_cob and self.transport != "sdo" and self.map_mode == 2:
+            if len(data) >= 1:
+                self._mode_by_pdo(int.from_bytes(data[0:1], "little", signed=True))
